@@ -455,6 +455,7 @@ func c19send(c *core.Ctx, r *core.Rand) {
 	ctx, cancel := context.WithCancel(context.Background())
 	defer cancel()
 	cancelAfter := dur(r, 20, 3000)
+	ctx, cancel = ctxOfKind(c, r, ctx, cancel, useCtx)
 	for s := 0; s < ns; s++ {
 		s := s
 		rr := r.Fork()
@@ -601,6 +602,9 @@ func c19recv(c *core.Ctx, r *core.Rand) {
 	}()
 	ctx, cancel := context.WithCancel(context.Background())
 	defer cancel()
+	if !neverCancel {
+		ctx, cancel = ctxOfKind(c, r, ctx, cancel, useCtx)
+	}
 	if neverCancel {
 		// a context that can never be cancelled (Done() == nil): only the close ends the receivers
 		type ck struct{}
@@ -807,6 +811,29 @@ func diff(a, b []int) (onlyA, onlyB []int) {
 // given duration", reported as a violation. (This is the one place where a
 // wall-clock bound is a verdict: the property itself is about a deadline; the
 // margin is x30000.)
+// ctxOfKind: two contexts in five are cancelled by a later cancel() call (the one passed in);
+// the others end in other ways: a deadline that has already passed when the calls are made,
+// a deadline 20..3000 us ahead that nobody cancels, a context cancelled before the first call.
+func ctxOfKind(c *core.Ctx, r *core.Rand, ctx context.Context, cancel context.CancelFunc, use bool) (context.Context, context.CancelFunc) {
+	if !use {
+		return ctx, cancel
+	}
+	switch r.Intn(5) {
+	case 2:
+		c.Count("contexts_with_deadline_already_passed", 1)
+		cancel()
+		return context.WithDeadline(context.Background(), time.Now().Add(-dur(r, 1, 5000)))
+	case 3:
+		c.Count("contexts_ended_by_deadline_only", 1)
+		cancel()
+		return context.WithTimeout(context.Background(), dur(r, 20, 3000))
+	case 4:
+		c.Count("contexts_cancelled_before_the_calls", 1)
+		cancel()
+	}
+	return ctx, cancel
+}
+
 func boundedJoin(c *core.Ctx, wg *sync.WaitGroup, helper string, timeout time.Duration, ctx bool) bool {
 	done := make(chan struct{})
 	go func() { wg.Wait(); close(done) }()
